@@ -1088,6 +1088,7 @@ func c15Tasks(tier string) []mc.Task {
 			c15Replay(c, cs)
 		}
 	}})
+	ts = append(ts, c15LongTask())
 	ts = append(ts, mc.Task{Name: "manyrows#all", Run: func(c *mc.Ctx) {
 		for _, n := range []int{257, 258, 259, 515, 65537, 65538, 65539} {
 			for _, repl := range []string{"", "MAJ"} {
@@ -1096,6 +1097,121 @@ func c15Tasks(tier string) []mc.Task {
 		}
 	}})
 	return ts
+}
+
+// c15Long: masking is column-wise - what a call does to column j of a long alignment is what the same call does to
+// that column alone (window reduced to the column: length 1 if the window holds it, else 0).  The one-column
+// calls are the ones the small-scope enumeration judges; here the long call is compared with them, for rows of
+// every length 5..40 and 63..65 (several columns per step with a tail would show).
+func c15Long(c *mc.Ctx, cs c15Case) {
+	c.Eval()
+	viol := func(clause, desc string) {
+		c.Violation("C15/"+strings.TrimPrefix(cs.Op, "long-")+"/long-rows/"+clause, fmt.Sprintf("%s: case %s", desc, jsonStr(cs)), cs)
+	}
+	n, L := len(cs.Seqs), len(cs.Seqs[0])
+	call := func(seqs []string, start, length int) (rows, error, bool) {
+		al, err := mkAlign(c15Alphabet(cs.Alpha), namedRows(seqs...))
+		if err != nil {
+			c.Fatal("cannot build %v: %v", seqs, err)
+			return nil, nil, false
+		}
+		var e error
+		if pn, msg := mc.Guard(func() {
+			switch cs.Op {
+			case "long-Mask":
+				e = al.Mask(cs.Ref, start, length, cs.Repl, cs.NoGap, cs.NoRef)
+			case "long-MaskOccurences":
+				e = al.MaskOccurences(cs.Ref, cs.Max, cs.Repl)
+			}
+		}); pn {
+			viol("panic/"+mc.PanicSite(msg), msg)
+			return nil, nil, false
+		}
+		return readRows(al), e, true
+	}
+	got, err, ok := call(cs.Seqs, cs.Start, cs.Len)
+	if !ok {
+		return
+	}
+	if err != nil && cs.Op == "long-Mask" && cs.Start >= L {
+		c.Outcome(cs.Op + ":start-beyond-the-end-refused")
+		return
+	}
+	if err != nil {
+		viol("unexpected-error", err.Error())
+		return
+	}
+	for j := 0; j < L; j++ {
+		col := make([]string, n)
+		for i := range col {
+			col[i] = cs.Seqs[i][j : j+1]
+		}
+		length := 0
+		if j >= cs.Start && j-cs.Start < cs.Len {
+			length = 1
+		}
+		want, e1, ok := call(col, 0, length)
+		if !ok {
+			return
+		}
+		if e1 != nil {
+			c.Skip("the one-column call is refused")
+			return
+		}
+		for i := 0; i < n; i++ {
+			if got[i].Seq[j:j+1] != want[i].Seq {
+				viol("column-differs-from-the-column-alone", fmt.Sprintf("column %d of %d: row %s holds %q, the same call on that column alone gives %q", j, L, got[i].Name, got[i].Seq[j:j+1], want[i].Seq))
+				return
+			}
+		}
+	}
+	c.Nontrivial(jsonStr(cs))
+	c.Outcome(cs.Op + ":columnwise")
+}
+
+func c15LongTask() mc.Task {
+	return mc.Task{Name: "long-rows#columnwise", Run: func(c *mc.Ctx) {
+		var lens []int
+		for l := 5; l <= 40; l++ {
+			lens = append(lens, l)
+		}
+		lens = append(lens, 63, 64, 65)
+		for _, L := range lens {
+			seqs := make([]string, 4)
+			for i := range seqs {
+				b := make([]byte, L)
+				for j := range b {
+					b[j] = "AC-AN-CA"[(j*(i+2)+i+j/5)%8]
+					if i == 0 && j%6 == 4 {
+						b[j] = '-'
+					}
+				}
+				seqs[i] = string(b)
+			}
+			for _, w := range [][2]int{{0, L}, {1, L - 2}, {3, 5}, {L - 3, 10}, {2, 9}, {6, 17}} {
+				for _, repl := range []string{"", "GAP", "MAJ", "z"} {
+					for _, ref := range []string{"", "a", "c"} {
+						for opt := 0; opt < 4; opt++ {
+							if ref == "" && opt&2 != 0 {
+								continue
+							}
+							c15Long(c, c15Case{Op: "long-Mask", Alpha: "nt", Seqs: seqs, Ref: ref, Start: w[0], Len: w[1], Repl: repl, NoGap: opt&1 != 0, NoRef: opt&2 != 0})
+						}
+					}
+				}
+			}
+			for _, repl := range []string{"", "GAP", "MAJ"} {
+				for _, ref := range []string{"", "b"} {
+					for max := 0; max <= 2; max++ {
+						c15Long(c, c15Case{Op: "long-MaskOccurences", Alpha: "nt", Seqs: seqs, Ref: ref, Repl: repl, Max: max})
+					}
+				}
+			}
+			if c.Expired() {
+				return
+			}
+		}
+	}}
 }
 
 // c15Sched runs one call under the controlled scheduler (see mc.SchedProbe).
@@ -1175,6 +1291,10 @@ func c15Replay(c *mc.Ctx, cs c15Case) {
 		c15Sched(c, cs)
 		return
 	}
+	if strings.HasPrefix(cs.Op, "long-") {
+		c15Long(c, cs)
+		return
+	}
 	k := &c15Checker{c: c}
 	defer k.flush()
 	if !k.load(cs.Alpha, cs.Seqs) {
@@ -1207,7 +1327,7 @@ func init() {
 	mc.Register(&mc.Prop{
 		ID:    "C15",
 		Level: "exploration",
-		Rule: cliStreamRule[1:] + "(Free-running complement under the race detector: 8 goroutines doing this property's operations on objects of their own must get the values the same work gives alone.)  Command line: goalign mask with -s/-l, --pos, --unique --at-most, --ref-seq (none, a, b), --replace (not given, GAP, MAJ, Z, n), --no-gaps, --no-ref on every 2x3 alignment over {A,C,-} (protein alphabet: 2x2 in the quick tier) and two larger ones: the output must be what the documented library calls (RefCoordinates + Mask per window / position, MaskOccurences) give; a call the library refuses must be refused. " + "(also: five calls on a 4 x 2600 alignment under the controlled scheduler, preemption bound 1 — one execution unless the operation spawns goroutines;) bounded-exhaustive enumeration of calls on real alignments (alphabet fixed to nucleotide, AMBIG = N, and to amino acid, AMBIG = X; rows named a, b, c ...). " +
+		Rule: cliStreamRule[1:] + "(Long rows: 4 rows of every length 5..40 and 63..65; Mask with 6 windows x 4 replacements x reference x protection flags and MaskOccurences with thresholds 0..2 must do to every column what the same call does to that column alone - the one-column calls being judged by the enumeration below.) (Free-running complement under the race detector: 8 goroutines doing this property's operations on objects of their own must get the values the same work gives alone.)  Command line: goalign mask with -s/-l, --pos, --unique --at-most, --ref-seq (none, a, b), --replace (not given, GAP, MAJ, Z, n), --no-gaps, --no-ref on every 2x3 alignment over {A,C,-} (protein alphabet: 2x2 in the quick tier) and two larger ones: the output must be what the documented library calls (RefCoordinates + Mask per window / position, MaskOccurences) give; a call the library refuses must be refused. " + "(also: five calls on a 4 x 2600 alignment under the controlled scheduler, preemption bound 1 — one execution unless the operation spawns goroutines;) bounded-exhaustive enumeration of calls on real alignments (alphabet fixed to nucleotide, AMBIG = N, and to amino acid, AMBIG = X; rows named a, b, c ...). " +
 			"Inputs (n rows x L columns, all alignments of the shape over the symbol set): 1x1, 1x2, 1x3, 2x1, 2x2, 3x1 and (Mask only) 1x4 over {A,C,-,N,.} (nt) / {A,C,-,X,.} (aa); " +
 			"2x3, 3x2, 4x1 and (MaskOccurences/MaskUnique only) 3x3, 4x2, 5x1 over {A,C,-,N} / {A,C,-,X}; Mask on 3x3 and 2x4 over {A,C,-} in the quick tier and over the four symbols in the thorough tier; " +
 			"thorough adds Mask on 4x2 and MaskOccurences/MaskUnique on 5x2 over the four symbols; plus the alignment without rows and 1, 2, 3 rows without columns. " +
